@@ -59,6 +59,53 @@ pub mod zstd {
         { unimplemented!() }
     }
 
+    /// `hash_map::Values`: `rest()` = the values not yet produced, in production order.
+    #[verifier::external_body]
+    #[verifier::accept_recursive_types(V)]
+    #[verifier::reject_recursive_types(K)]
+    pub struct Values<'a, K, V> { v: std::collections::hash_map::Values<'a, K, V> }
+
+    pub mod hash_map { pub use super::Values; }
+
+    impl<'a, V> Values<'a, LabelBuf, V> {
+        pub uninterp spec fn rest(&self) -> Seq<V>;
+
+        /// `Iterator::next` of `hash_map::Values`.
+        #[verifier::external_body]
+        pub fn next(&mut self) -> (r: Option<&'a V>)
+            ensures
+                old(self).rest().len() == 0 ==> r is None && final(self).rest() == old(self).rest(),
+                old(self).rest().len() > 0 ==> r is Some && *r->Some_0 == old(self).rest()[0]
+                    && final(self).rest() == old(self).rest().skip(1),
+        { unimplemented!() }
+    }
+
+    impl<V> HashMap<LabelBuf, V> {
+        /// The (fixed but unspecified) order in which an unmodified map enumerates its keys:
+        /// every key exactly once.
+        pub uninterp spec fn order_keys(&self) -> Seq<LabelK>;
+
+        pub open spec fn order(&self) -> Seq<V> {
+            Seq::new(self.order_keys().len(), |i: int| self@[self.order_keys()[i]])
+        }
+
+        #[verifier::external_body]
+        pub proof fn axiom_order(&self)
+            ensures
+                self.order_keys().no_duplicates(),
+                forall|k: LabelK| self.order_keys().contains(k) <==> #[trigger] self@.contains_key(k),
+        { }
+
+        /// `HashMap::values`
+        #[verifier::external_body]
+        pub fn values(&self) -> (r: Values<'_, LabelBuf, V>)
+            ensures r.rest() == self.order(),
+        { unimplemented!() }
+    }
+
+    pub assume_specification<T> [core::mem::replace::<T>] (dest: &mut T, src: T) -> (r: T)
+        ensures r == *old(dest), *final(dest) == src;
+
     impl<'a, V> Entry<'a, LabelBuf, V> {
         pub uninterp spec fn key(&self) -> LabelK;
         pub uninterp spec fn cur(&self) -> Map<LabelK, V>;
@@ -93,4 +140,19 @@ pub mod zstd {
                     && forall|j: int| #![trigger s@[j]] 0 <= j < s@.len() ==> exists|k: B| #[trigger] f.ensures((&s@[j],), k)
                         && (j < i ==> k.cmp_spec(b) == Ordering::Less) && (j >= i ==> k.cmp_spec(b) == Ordering::Greater),
             };
+
+    /// Stand-in for `Box<dyn RrsetIterator<'a> + 'a>` (target of rewrite ZN6): opaque; `yields()` is the
+    /// sequence of RRsets the iterator will produce (each as `IteratedRrset::from(&rrset)`).
+    #[verifier::external_body]
+    pub struct RrsetIterBox<'a> { b: Box<dyn crate::db::zone::RrsetIterator<'a> + 'a> }
+
+    impl<'a> RrsetIterBox<'a> {
+        pub uninterp spec fn yields(&self) -> Seq<crate::db::rrset::Rrset>;
+    }
+
+    /// Target of rewrite ZN7: `Box::new(list.iter().map(IteratedRrset::from))`.
+    #[verifier::external_body]
+    pub fn zn_boxed_rrsets<'a>(list: &'a crate::db::rrset::RrsetList) -> (r: RrsetIterBox<'a>)
+        ensures r.yields() == list.rrsets@,
+    { unimplemented!() }
 }
